@@ -24,7 +24,6 @@ import (
 	"strings"
 	"sync"
 	"sync/atomic"
-	"time"
 
 	"github.com/grafana/cog/internal/ast"
 	"github.com/grafana/cog/internal/codegen"
@@ -191,7 +190,7 @@ func (e *explorer) pipelineLayer(seeds []*Seed, langs []string) (pipeStats, []*S
 	for _, base := range seeds {
 		for _, lang := range langs {
 			idx++
-			if time.Now().After(e.deadline) {
+			if e.expired() {
 				e.timedOut.Store(true)
 				return st, derived
 			}
@@ -226,7 +225,7 @@ func (e *explorer) pipelineLayer(seeds []*Seed, langs []string) (pipeStats, []*S
 				if i >= len(jobs) {
 					return
 				}
-				if time.Now().After(e.deadline) {
+				if e.expired() {
 					e.timedOut.Store(true)
 					return
 				}
